@@ -289,6 +289,10 @@ func (c *c14) opChain() {
 	c.prov.script = map[string]int{}
 	r.Logf("op auth_chain of %s (%s)", c.desc(target.EventID()), kind)
 	c.scriptProvider(c.closure(target))
+	if c.t.Chance(250) {
+		c.prov.eager = true
+		r.Probe("eager_provider_hands_over_the_rest_of_the_chain")
+	}
 	model := c.modelChain(target)
 	served := map[string]bool{target.EventID(): true}
 	reasked := ""
@@ -712,6 +716,10 @@ func (c *c14) opLoad() {
 	r.Logf("op load_and_verify")
 	c.prov.reset()
 	c.prov.script = map[string]int{}
+	if t.Chance(250) {
+		c.prov.eager = true
+		r.Probe("eager_provider_hands_over_the_rest_of_the_chain")
+	}
 	b := c.makeBatch()
 	c.refreshStore()
 	var allIDs []string
